@@ -53,10 +53,14 @@ Secs == {"none", "pass_ignore", "pass_read", "fail_read", "fail_read_then_pass",
 
 VARIABLE case
 Init ==
-   \/ \E id \in DOMAIN Schemas, sec \in Secs, preset \in BOOLEAN, skip \in BOOLEAN, ct \in {"application/json", "application/json; charset=utf-8"} :
+   \* unsized: the body comes from a reader net/http cannot size (ContentLength 0 = unknown; a pipe, a MultiReader)
+   \/ \E id \in DOMAIN Schemas, sec \in Secs, preset \in BOOLEAN, skip \in BOOLEAN, ct \in {"application/json", "application/json; charset=utf-8"},
+         un \in BOOLEAN :
         \E v \in Bodies[id] :
            /\ (ct # "application/json" => sec \in {"none", "pass_read"})
-           /\ case = [kind |-> "body", id |-> id, schema |-> Schemas[id], v |-> v, sec |-> sec, preset |-> preset, skip |-> skip, ct |-> ct]
+           /\ (un => ~preset /\ ct = "application/json")
+           /\ case = [kind |-> "body", id |-> id, schema |-> Schemas[id], v |-> v, sec |-> sec, preset |-> preset, skip |-> skip, ct |-> ct,
+                      unsized |-> un]
    \/ \E loc \in {"query", "header", "cookie"}, shape \in {"int", "str", "arr"}, explode \in {"unset", "true", "false"},
          present \in BOOLEAN, skip \in BOOLEAN, other \in BOOLEAN :
         /\ (shape = "arr" => loc = "query")
